@@ -194,6 +194,11 @@ def run(ctx):
         ctx.guarded(r, AC.check_choice_protocol, kind)
     r = ctx.rule("R2s", "native min/max branch on strict comparisons like the interpreter's choice functions", 14)
     ctx.guarded(r, AC.check_strictness)
+    from .. import x86pw as PW86
+
+    r = ctx.rule("R2v", "x86_64 tracing min / max / and / or: on every order type of the operands (values / interval bounds) the selected path records the interpreter's choice once, sets the flag iff it is decided and advances the pointer once", 8)
+    for kind in AC.TRACING:
+        ctx.guarded(r, PW86.check_piecewise, kind, only=PW86.CHOICE_OPS)
     r = ctx.rule("R2n", "interval choice functions leave a NaN operand undecided before anything else, as the native clauses do; `contains` includes both bounds", 5)
     ctx.guarded(r, r_nan_undecided)
     from . import C03 as C03_
